@@ -845,7 +845,7 @@ CHECKS = {
     "C10": chk(["wide"], [],
                "events = every operator (+,-,*,/,%,&,|,^, unary -, ++/--, << / >> by 0..N-1 incl. limb multiples, the six "
                "comparisons), conversions to/from 64/32-bit integers and double, numeric_limits and decimal stream output of "
-               "wide_integer<D, Narrowest> for D in {129,130,160,192,200,255,256,500,1000} (2048 and 65 in thorough), signed and "
+               "wide_integer<D, Narrowest> for D in {129,130,160,192,200,255,256,500,1000} (2048 in thorough), signed and "
                "unsigned, limb types 8/16/32/64 bit; operands: limb-structured patterns (all-ones limbs, single bits at word "
                "edges, 0x8000../0x7fff.. tops, (B^k-1)/(B-1) repunits, alternating, neighbours of 53-bit rounding ties) + seeded random with random limb sparsity; "
                "multi-limb values are sliced from crepresentation() by the recorder; non-trivial = operand wider than 64 bits",
